@@ -509,13 +509,15 @@ class MPSBackendImpl:
         basename = self.autosave_file
         with open(basename.with_suffix(".new"), "wb") as file_handle:
             pickle.dump(self, file_handle)
-        if basename.is_file():
-            os.rename(basename, basename.with_suffix(".bak"))
-
-        os.rename(basename.with_suffix(".new"), basename)
+        # Atomically replace the previous snapshot, so that a crash at any point
+        # leaves a complete snapshot (the previous or the new one) under the
+        # advertised name. Renaming the old file away first left a window with
+        # no file at all under that name.
+        os.replace(basename.with_suffix(".new"), basename)
         autosave_filesize = os.path.getsize(self.autosave_file) / 1e6
 
         if basename.with_suffix(".bak").is_file():
+            # leftover of an interrupted autosave made by an older version
             os.remove(basename.with_suffix(".bak"))
 
         self.last_save_time = time.time()
